@@ -183,7 +183,7 @@ def main():
         path = os.path.join(REPO, rel)
         if not rel.endswith(".py") or not os.path.exists(path):
             continue
-        src = open(path).read()
+        src = open(path, newline="").read()  # byte offsets below must match the file as stored (CRLF files exist)
         for m in mutants_of(rel, src):
             if a.kinds and m["kind"] not in a.kinds.split(","):
                 continue
